@@ -286,9 +286,9 @@ def make_dir(rng, ctx, root, same_stem=False, carry=False, probe=None, full=Fals
     nbad = rng.randint(1, 4)
     stems = ['%c%02d' % (rng.choice('abmz'), i) for i in range(nvalid + nbad + 1)]
     rng.shuffle(stems)
-    sub = rng.random() < 0.4
+    sub = full or rng.random() < 0.4
     if sub:
-        os.makedirs(os.path.join(root, 'sub'))
+        os.makedirs(os.path.join(root, 'sub', 'deep', 'er'))       # files one and three levels down
     k = 0
     valid_data = []
     for i in range(nvalid):
@@ -296,9 +296,11 @@ def make_dir(rng, ctx, root, same_stem=False, carry=False, probe=None, full=Fals
         data = build_valid(rng, fmt, ctx)
         valid_data.append((fmt, data))
         rel = stems[k] + rng.choice(EXT[fmt])
-        if sub and rng.random() < 0.3:
-            rel = os.path.join('sub', rel)
+        if sub and rng.random() < 0.4:
+            rel = os.path.join(rng.choice(['sub', 'sub', os.path.join('sub', 'deep', 'er')]), rel)
         k += 1
+        if full and i == nvalid - 1:
+            rel = os.path.join('sub', 'deep', 'er', os.path.basename(rel))
         files.append((rel, 'valid-' + fmt, data))
     for i in range(nbad + (1 if full else 0)):
         kind = rng.choice(['empty', 'truncate', 'truncate', 'flip', 'flip', 'header', 'text', 'random', 'zeros', 'foreign', 'foreign', 'foreign', 'origin-quirk'])
@@ -313,8 +315,8 @@ def make_dir(rng, ctx, root, same_stem=False, carry=False, probe=None, full=Fals
         else:
             data = damage(rng, base, kind)
         rel = stems[k] + rng.choice(EXT[fmt] + ['.txt', ''])
-        if sub and rng.random() < 0.3:
-            rel = os.path.join('sub', rel)
+        if sub and rng.random() < 0.4:
+            rel = os.path.join(rng.choice(['sub', 'sub', os.path.join('sub', 'deep', 'er')]), rel)
         k += 1
         files.append((rel, kind, data))
     if probe is not None:
